@@ -15,6 +15,12 @@ M: transcription of libcoap's server-session bookkeeping
      src/coap_net.c      RST branch of coap_dispatch for a message id that is NOT in the send queue: the observation whose
                          last notification carried that id is cancelled under a temporary session reference
      src/coap_async.c    coap_register_async_lkd / coap_free_async_sub / coap_delete_all_async
+     src/coap_net.c      coap_check_async (second statement of coap_io_prepare_io_lkd): a DELAYED async entry that is due
+                         re-invokes the request handler, which takes some time (the clock moves on DURING the pass), the
+                         NON response is sent (`last_rx_tx` = the clock, later than the pass's `now`), the entry is freed
+   coap_io_prepare_io_lkd(ctx, …, now) is modelled with its `now` ARGUMENT (`St.prepareIoAt`): the due tests of
+   coap_check_async, of the retransmission loop and of the idle reclamation compare with that argument, everything that
+   stamps a time (`coap_ticks()` in the send path, in coap_retransmit) reads the clock `St.now`, which is ≥ the argument.
    Every object is a token (a `Nat` serial) in an ALLOCATION LEDGER (`alloc id` / `free id`, chronological).
 
 S: `Peer ⇀ session` (partial injective map, `lookup`), `ref s = #holders s`.
@@ -74,7 +80,9 @@ inductive HKind where
   | obs (k q tok note : Nat) -- coap_subscription_t on observable resource k: cache key (query variant q; the key also
                              -- covers the session and the Uri-Path), token, and `obs->pdu->mid` named by the index
                              -- (per session, from 1) of the last notification sent for it (0: none sent yet)
-  | async                    -- coap_async_t
+  | async                    -- coap_async_t with delay 0 (never fires; freed by the application or at teardown)
+  | asyncD (due dur : Nat)   -- coap_async_t of a delayed response: `async->delay` (absolute; 0 = never) and the time the
+                             -- request handler will take when libcoap re-invokes it (an input of the history)
   | node (cnt due : Nat)     -- coap_queue_t in context->sendqueue (retransmit_cnt, absolute deadline)
   deriving DecidableEq, Repr
 
@@ -243,12 +251,15 @@ def St.retransmit (st : St) (h : Holder) : St :=
     else st
   | _ => st
 
-/-- the reclamation test of coap_io_prepare_io_lkd for one session of the SESSIONS_ITER_SAFE walk -/
-def St.reclaimStep (st : St) (sid : Nat) : St :=
+/-- the reclamation test of coap_io_prepare_io_lkd for one session of the SESSIONS_ITER_SAFE walk:
+    `s->ref == 0 && s->delayqueue == NULL && s->last_rx_tx + session_timeout <= now` with the `now` ARGUMENT of the pass
+    (the addition cannot wrap: ticks are 64 bit milliseconds).  `last_rx_tx` may be LATER than `now` — the session was
+    used after the caller read the clock — and then the test is simply false. -/
+def St.reclaimStep (st : St) (now : Nat) (sid : Nat) : St :=
   match st.getSess sid with
   | none => st
   | some s =>
-    if s.idle && s.last + st.timeoutTicks ≤ st.now then st.reclaim sid
+    if s.idle && s.last + st.timeoutTicks ≤ now then st.reclaim sid
     else
       -- "Make sure the session object is not deleted in any callbacks": reference … release
       (st.updSess sid Sess.reference).updSess sid Sess.release
@@ -282,13 +293,50 @@ def St.checkNotify (st : St) : St :=
   let st1 := (st.resAlive.filter (· ∈ st.dirty)).foldl St.notifyRes st
   { st1 with dirty := [] }
 
-def St.prepareIo (st0 : St) : St :=
-  let st := st0.checkNotify
-  -- retransmissions due (a re-queued node is due strictly later than now, so one pass over a snapshot)
-  let due := st.holders.filter fun h => isNode h.kind && nodeDue h.kind ≤ st.now
-  let st1 := due.foldl St.retransmit st
-  -- LL_FOREACH(ctx->endpoint, ep) SESSIONS_ITER_SAFE(ep->sessions, s, rtmp)
-  st1.eps.foldl (fun acc ep => ((acc.epSessions ep.1 ep.2).map (·.sid)).foldl St.reclaimStep acc) st1
+/-! ### coap_check_async (second statement of coap_io_prepare_io_lkd) -/
+
+def isDelayed : HKind → Bool
+  | .asyncD _ _ => true
+  | _ => false
+
+/-- one entry of `LL_FOREACH_SAFE(context->async_state, async, tmp)`:
+    ```
+    if (async->delay != 0 && async->delay <= now) {
+      handle_request(context, async->session, async->pdu);   /* the application's handler runs: the clock moves on by
+                                                                 `dur`; its NON response is sent: coap_ticks(&last_rx_tx) */
+      coap_free_async_lkd(async->session, async);             /* coap_session_release_lkd, free */
+    }
+    ```
+    The response carries a message id generated by the server and a non-empty code: the peer counts it like a notification. -/
+def St.fireAsync (st : St) (now : Nat) (h : Holder) : St :=
+  match h.kind with
+  | .asyncD due dur =>
+    if h ∈ st.holders && due ≠ 0 && due ≤ now then
+      let st1 := { st with now := st.now + dur }
+      (st1.updSess h.sid fun s => { s with last := st1.now, notes := s.notes + 1 }).dropHolder h
+    else st
+  | _ => st
+
+/-- the list is LL_PREPENDed: newest entry first -/
+def St.checkAsync (st : St) (now : Nat) : St :=
+  ((st.holders.filter fun h => isDelayed h.kind).reverse).foldl (fun acc h => acc.fireAsync now h) st
+
+/-- coap_check_notify_lkd, coap_check_async(ctx, now), the retransmission loop -/
+def St.preReclaim (st0 : St) (now : Nat) : St :=
+  let st := st0.checkNotify.checkAsync now
+  -- retransmissions due (a re-queued node is due strictly later than the clock ≥ now, so one pass over a snapshot)
+  let due := st.holders.filter fun h => isNode h.kind && nodeDue h.kind ≤ now
+  due.foldl St.retransmit st
+
+/-- LL_FOREACH(ctx->endpoint, ep) SESSIONS_ITER_SAFE(ep->sessions, s, rtmp) -/
+def St.reclaimPass (st1 : St) (now : Nat) : St :=
+  st1.eps.foldl (fun acc ep => ((acc.epSessions ep.1 ep.2).map (·.sid)).foldl (fun a sid => a.reclaimStep now sid) acc) st1
+
+/-- `coap_io_prepare_io_lkd(ctx, …, now)` -/
+def St.prepareIoAt (st0 : St) (now : Nat) : St := (st0.preReclaim now).reclaimPass now
+
+/-- the pass as libcoap itself runs it (`coap_ticks(&now)` immediately before) -/
+def St.prepareIo (st0 : St) : St := st0.prepareIoAt st0.now
 
 /-! ## events of the history -/
 
@@ -297,6 +345,8 @@ inductive Req where
   | obsReg (k q tok : Nat)   -- GET /ok[?x] Observe:0 with token variant tok
   | obsDereg (k q tok : Nat) -- GET /ok[?x] Observe:1 with token variant tok
   | async                    -- GET /a, handler registers an async entry
+  | slow (d dur : Nat)       -- NON GET /b: the handler registers a DELAYED async entry (`d` ticks, 0 = never) and will take
+                             -- `dur` ticks to produce the answer when libcoap re-invokes it
   deriving DecidableEq, Repr
 
 inductive Event where
@@ -313,6 +363,7 @@ inductive Event where
   | noteAck (p : Peer) (j : Nat)   -- … with an empty ACK
   | advance (d : Nat)
   | io
+  | ioStale (d : Nat)        -- coap_io_prepare_epoll(ctx, now) with a `now` the application read `d` ticks ago
   | setMaxIdle (n : Nat)
   | setTimeout (n : Nat)
   | freeContext
@@ -380,7 +431,13 @@ def St.rstNote (st : St) (sid n : Nat) : St :=
   match st.findHolder sid (hasNote n) with
   | some h => ((st.updSess sid Sess.reference).dropHolder h).updSess sid Sess.release
   | none => st                                       -- only coap_handle_nack
+/-- any coap_async_t (what coap_delete_all_async frees, the length of ctx->async_state) -/
 def isAsync : HKind → Bool
+  | .async => true
+  | .asyncD _ _ => true
+  | _ => false
+/-- the entry of GET /a (token [P,2]): coap_find_async(session, token) -/
+def isAsyncPlain : HKind → Bool
   | .async => true
   | _ => false
 def isApp : HKind → Bool
@@ -395,9 +452,16 @@ def St.serve (st : St) (sid : Nat) : Req → St
     else st                                          -- 4.04
   | .obsDereg k q tok => st.delObserverReq sid k q tok
   | .async =>
-    match st.findHolder sid isAsync with
+    match st.findHolder sid isAsyncPlain with
     | some _ => st                                   -- coap_register_async returns NULL (already registered)
     | none => st.addHolder sid .async
+  | .slow d dur =>
+    -- handle_request: an entry with this token exists and this is not the delayed invocation: "retransmit async
+    -- response" (nothing for a NON request), not passed to the handler.  Else the handler runs: coap_find_async finds
+    -- nothing, coap_register_async(session, request, d): `delay = d ? now + d : 0`; no response code: nothing is sent
+    match st.findHolder sid isDelayed with
+    | some _ => st
+    | none => st.addHolder sid (.asyncD (if d = 0 then 0 else st.now + d) dur)
 
 /-- `coap_free_endpoint_lkd` (after the fix in W/repo): EVERY session of the endpoint gets its DEL event and is freed.
     A reference still counted at this point can only be the application's (resources, send queue and async entries
@@ -424,6 +488,12 @@ def St.rxSkip (st : St) (p : Peer) (r : Req) : Bool :=
     | .obsDereg k _ _ => !(k ∈ st.resAlive)
     | _ => false) || !((p.lport, p.proto) ∈ st.eps)
 
+/-- the datagram reaches neither a handler nor produces an answer the peer could see (a NON request that repeats the
+    token of a pending delayed response): the harness cannot name the session that handled it -/
+def St.silent (st : St) (sid : Nat) : Req → Bool
+  | .slow _ _ => (st.findHolder sid isDelayed).isSome
+  | _ => false
+
 def St.step (st : St) (e : Event) : St × Outcome :=
   if st.freed then (st, .skip) else
   match e with
@@ -431,7 +501,7 @@ def St.step (st : St) (e : Event) : St × Outcome :=
     if st.rxSkip p r then (st, .skip) else
     let (st1, sid) := st.getSession p
     -- coap_io_do_epoll_lkd ends with coap_io_prepare_epoll_lkd
-    ((st1.serve sid r).prepareIo, .handled sid)
+    ((st1.serve sid r).prepareIo, if st1.silent sid r then .ok else .handled sid)
   | .rst p =>
     match st.lookup p with
     | none => (st, .skip)
@@ -454,7 +524,7 @@ def St.step (st : St) (e : Event) : St × Outcome :=
     match st.lookup p with
     | none => (st, .skip)
     | some s =>
-      match st.findHolder s.sid isAsync with
+      match st.findHolder s.sid isAsyncPlain with
       | none => (st, .skip)
       | some h => (st.dropHolder h, .ok)
   | .appRef p =>
@@ -509,6 +579,7 @@ def St.step (st : St) (e : Event) : St × Outcome :=
       else (st, .skip)
   | .advance d => ({ st with now := st.now + d }, .ok)
   | .io => (st.prepareIo, .ok)
+  | .ioStale d => (st.prepareIoAt (st.now - d), .ok)
   | .setMaxIdle n => ({ st with maxIdle := n }, .ok)
   | .setTimeout n => ({ st with timeout := n }, .ok)
   | .freeContext =>
